@@ -254,12 +254,12 @@ CHECKS = {
         "level_note": "Trusts the 12-line read-only verif hook (VerifState/VerifSlots), the slice model in c04deque, rapid v1.3.0 and the go1.26.8 toolchain.",
         "technique": "stateful property-based testing (rapid) against a reference model",
         "rule": ("rapid-generated plans of 1-80 deque operations (incl. macro pushes/pops that steer "
-                 "capacity, front offset and length) run against a slice model with a full observation and a "
+                 "capacity, front offset and length) run, for element types *int and any (nil interface and 0 are ordinary elements), against a slice model with a full observation and a "
                  "raw-slot retention check after every elementary step; a case is non-trivial if it visited a "
                  "wrapped or exactly-full ring state AND reallocated while wrapped; distinct = distinct plan "
                  "(hash of its JSON); 'states' counts distinct (cap, front, back) ring states that were wrapped or full"),
         "assumptions": ["verif hook VerifState/VerifSlots reports the real ring buffer (read-only, 12 lines)",
                         "rapid v1.3.0 generator/shrinker; go1.26.8 toolchain"],
-        "jobs": [{"pkg": "c04deque", "kinds": ["deque"], "scale_thorough": 10, "shards_thorough": 16, "fuzz": [("FuzzDeque", "deque")]}],
+        "jobs": [{"pkg": "c04deque", "kinds": ["deque", "deque-any"], "scale_thorough": 10, "shards_thorough": 16, "fuzz": [("FuzzDeque", "deque")]}],
     },
 }
